@@ -1,6 +1,6 @@
 """C11 - farm lifecycle conserves funds and respects owners and limits (structural part)."""
 import re
-from rules.common import (opmap, PredTrue, PredFalse, TryOk, CallTrue, EQ, VariantEdge, NONPAYABLE, IS_OWNER, no_effects, where, flat_atoms,
+from rules.common import (opmap, ValTrue, rel, rel_sign, PredTrue, PredFalse, TryOk, CallTrue, EQ, VariantEdge, NONPAYABLE, IS_OWNER, no_effects, where, flat_atoms,
                           all_origins, exact_origins, ops_of, show, origin_match, eq_test, pred_test, data_test, field_val,
                           effects_signature, overrides)
 from rules.C15 import FARM_OWNER
@@ -27,6 +27,21 @@ EXPAND = ("ManageFarm", ".action", "Expand")
 CLOSE = ("ManageFarm", ".action", "Close")
 FLOORS = {"CUT-create-farm": 9, "CUT-expand-farm": 7, "ACUT-zero-fee": 1}
 
+def LP_BY_PM(prefix):
+    """the LP denom's factory creator equals the configured pool manager (however the check is packaged)"""
+    return PredTrue("creator(lp_denom) == pool_manager_addr", lambda pn, pa: pn == "eq" and len(pa) > 1 and (
+        (origin_match(pa[0], r"lp_denom$|^info\.funds\[\*\]\.denom$") and origin_match(pa[1], r"^Store\(CONFIG\)\.pool_manager_addr$")) or
+        (origin_match(pa[1], r"lp_denom$|^info\.funds\[\*\]\.denom$") and origin_match(pa[0], r"^Store\(CONFIG\)\.pool_manager_addr$"))))
+
+
+def FARM_EXPIRED(truth):
+    """decision on a farm's expiry: a bool computed from the epoch-manager answer for the farm's end / its remaining budget"""
+    def test(v):
+        o = all_origins(v)
+        return any(x.startswith("Query(Epoch)") for x in o) or {"Store(FARMS).claimed_amount", "Store(FARMS).farm_asset.amount"} <= o
+    return ValTrue("farm expired" if truth else "!farm expired", test, truth)
+
+
 ASSUME_FEE_ZERO = [PredFalse("assume fee.amount.is_zero()", pred_test("is_zero", FEE_A)),
                    PredFalse("assume fee.amount == 0", eq_test(FEE_A, r"^Const\(0\)$")),
                    PredTrue("assume !(fee.amount > 0)", rel(FEE_A, ">", r"^Const\(0\)$"))]
@@ -46,12 +61,12 @@ def run(W, chk):
     fm = "farm_manager"
     # ------------------------------------------------------------ creation guards
     guards = [
-        ("lp denom from pool manager", [TryOk(r"farm_manager::helpers::validate_lp_denom$")], ()),
+        ("lp denom from pool manager", [LP_BY_PM(MP)], ()),
         ("farm limit", [PredTrue("farms.len() < max_concurrent_farms", rel(r"^Store\(FARMS\)", "<", r"^Store\(CONFIG\)\.max_concurrent_farms$"))], ()),
         ("min amount", [PredTrue("amount >= MIN_FARM_AMOUNT", rel(MP + r"\.farm_asset\.amount$", ">=", r"^Const\("))], ()),
-        ("asset sent", [TryOk(r"farm_manager::helpers::assert_farm_asset$")], ()),
-        ("epochs valid", [TryOk(r"farm_manager::helpers::validate_farm_epochs$")], ()),
-        ("identifier valid", [TryOk(r"farm_manager::helpers::validate_identifier$")], ()),
+        ("starts after the current epoch", [PredTrue("start_epoch > current", rel(MP + r"\.start_epoch$|^Query\(CurrentEpoch\)\.id$|^Const\(1_u64\)$", ">", r"^Query\(CurrentEpoch\)\.id$"))], ()),
+        ("identifier length", [PredTrue("identifier.len() <= MAX", lambda pn, pa: rel_sign(
+            pn, pa, lambda v: any(o.endswith("farm_identifier") and "len" in ops for (o, ops) in flat_atoms(v)), "<=", lambda v: all_origins(v) <= {"Const(66_usize)"} and bool(all_origins(v))))], ()),
         ("identifier unused", [PredFalse("farm exists", lambda pn, pa: pn == "is_ok" and origin_match(pa[0], r"^Store\(FARMS\)"))], ()),
         ("exact reward (other denom)", [PredTrue("sent == reward", eq_test(r"^info\.funds\[\*\]\.amount$", MP + r"\.farm_asset\.amount$"))], ASSUME_DENOMS_DIFFER),
         ("exact reward+fee (same denom)", [PredTrue("reward + fee == sent", lambda pn, pa: pn == "eq" and len(pa) > 1 and (
@@ -69,8 +84,6 @@ def run(W, chk):
     A = W.run(fm, "execute", CREATE, pol)
     ks = set()
     for e in A.switches():
-        if not e.fn.endswith("assert_farm_asset"):
-            continue
         for a in e.vals[0].atoms:
             if isinstance(a[0], tuple) and a[0][0] == "pred" and a[0][1] in ("eq", "ne") and origin_match(a[0][2], r"^info\.funds$"):
                 ks |= all_origins(a[0][3])
@@ -79,7 +92,7 @@ def run(W, chk):
                "with a zero creation fee in another denom an accepting path demands exactly one coin (the reward)",
                "with create_farm_fee.amount == 0 and fee denom != reward denom the accepting paths compare funds.len() with %s "
                "(the reward alone is rejected / a stray second coin is accepted and kept); FARMS.save reachable: %s" % (sorted(ks), bool(saves)),
-               W.F.get("farm_manager::helpers::assert_farm_asset").span)
+               A.entry)
 
     # ------------------------------------------------------------ fee / refund / budget provenance
     A = W.run(fm, "execute", CREATE)
@@ -116,23 +129,25 @@ def run(W, chk):
         key = e.extra.get("key", EMPTY)
         chk.expect(set(flat_atoms(key)) == set(flat_atoms(vfield(v, "identifier"))), "KEY-farm", "create", "saved under its own identifier", "key differs from identifier", where(e))
     # partition: expired -> closed ; not expired -> counted
-    cf = A.calls_id(r"manager::commands::close_farms$")
-    ok = bool(cf) and all(tagvals(e.extra["dargs"][1], "#part") == {"true"} for e in cf)
-    lens = [e for e in A.calls(r"Vec::<.*>::len$") if e.fn.endswith("create_farm") and "#part" in e.extra["dargs"][0].fields]
-    ok2 = bool(lens) and all(tagvals(e.extra["dargs"][0], "#part") == {"false"} for e in lens)
-    chk.expect(ok and ok2, "AGREE-partition", "create_farm", "close_farms(expired side), limit counts the non-expired side",
-               "partition sides are crossed: close_farms gets %s, the limit counts %s" % (
-                   [tagvals(e.extra["dargs"][1], "#part") for e in cf], [tagvals(e.extra["dargs"][0], "#part") for e in lens]), A.entry)
-    okp = any(any(re.search(r"create_farm::\{closure#\d+\}$", c) for c in e.chain()) for e in A.calls_id(r"helpers::is_farm_expired$"))
-    chk.expect(okp, "AGREE-partition", "predicate", "partition predicate is is_farm_expired", "partition predicate does not call is_farm_expired", A.entry)
+    loops = [e for e in A.calls(r"IntoIterator.*::into_iter$") if "#part" in A.d(e.extra["dargs"][0]).fields]
+    ok = bool(loops) and all(tagvals(A.d(e.extra["dargs"][0]), "#part") == {"true"} for e in loops)
+    lens = [e for e in A.calls(r"Vec::<.*>::len$") if "#part" in A.d(e.extra["dargs"][0]).fields]
+    ok2 = bool(lens) and all(tagvals(A.d(e.extra["dargs"][0]), "#part") == {"false"} for e in lens)
+    chk.expect(ok and ok2, "AGREE-partition", "create farm", "the expired side of the partition is the one iterated (closed), the other side is counted against the limit",
+               "partition sides are crossed: iterated %s, counted %s" % (
+                   [tagvals(A.d(e.extra["dargs"][0]), "#part") for e in loops], [tagvals(A.d(e.extra["dargs"][0]), "#part") for e in lens]), A.entry)
+    preds_ = [A.d(e.extra["dargs"][0]).fields.get("#may:pred") for e in loops + lens]
+    okp = bool(preds_) and all(p is not None and (any(x.startswith("Query(Epoch)") for x in all_origins(p)) or
+                                                  {"Store(FARMS).claimed_amount", "Store(FARMS).farm_asset.amount"} <= all_origins(p)) for p in preds_)
+    chk.expect(okp, "AGREE-partition", "predicate", "the partition predicate is the farm-expiry test", "partition predicate is not the farm expiry test", A.entry)
     commit(chk, A, "create_farm")
 
     # ------------------------------------------------------------ expand
     eg = [
         ("owner", [FARM_OWNER]),
         ("not ended", [PredTrue("current.id < preliminary_end_epoch", rel(r"^Query\(CurrentEpoch\)\.id$", "<", r"^Store\(FARMS\)\.preliminary_end_epoch$"))]),
-        ("not expired", [CallTrue(r"farm_manager::helpers::is_farm_expired$", "!is_farm_expired", False)]),
-        ("lp denom", [TryOk(r"farm_manager::helpers::validate_lp_denom$")]),
+        ("not expired", [FARM_EXPIRED(False)]),
+        ("lp denom", [LP_BY_PM(XP)]),
         ("attached == declared", [PredTrue("one_coin == params.farm_asset", eq_test(r"^info\.funds\[\*\]$", XP + r"\.farm_asset$"))]),
         ("same reward denom", [PredTrue("farm denom == declared denom", eq_test(r"^Store\(FARMS\)\.farm_asset\.denom$", XP + r"\.farm_asset\.denom$"))]),
         ("multiple of rate", [PredTrue("amount % rate == 0", lambda pn, pa: pn == "eq" and any("rem" in ops for (o, ops) in flat_atoms(pa[0])) and
@@ -197,9 +212,9 @@ def close_refund(chk, A, lab):
                "FARMS.remove(farm.identifier)", "farm not removed / removed under another key", where(rem[0]) if rem else A.entry)
     ok = len(sends) >= 1
     for e in sends:
-        if not e.fn.endswith("close_farms"):
-            continue
         to = exact_origins(A.d(field_val(e, "to_address")))
+        if to != {"Store(FARMS).owner"}:
+            continue
         am = opmap(A.d(vfield(vfield(field_val(e, "amount"), "[*]"), "amount")))
         good = to == {"Store(FARMS).owner"} and am == {"Store(FARMS).farm_asset.amount": frozenset(["sat", "sub", "sub:l"]),
                                                        "Store(FARMS).claimed_amount": frozenset(["sat", "sub", "sub:r"])}
